@@ -533,6 +533,82 @@ example : ((crun 300 (CState.init 1000)
      .advance 299, .call "adm".toList (some false)]).rets.map (fun r => (r.t, r.verdict, r.origin)))
     = [(1599, true, some 1000), (1300, true, some 1000), (1000, true, some 1000)] := by decide
 
+/-! ### the profile store (exact-key lookup) -/
+
+theorem store_load_wf {st : Store} (h : st.WF) (k : Name) : ∀ t, t ∈ st.load k → t.owner = k := by
+  intro t ht
+  unfold Store.load at ht
+  cases hk : st k with
+  | none => rw [hk] at ht; cases ht
+  | some l => rw [hk] at ht; exact h k l hk t ht
+
+theorem store_save_wf {st : Store} (h : st.WF) (k : Name) (l : List Tok)
+    (hl : ∀ t, t ∈ l → t.owner = k) : (st.save k l).WF := by
+  intro u l' hu t ht
+  unfold Store.save at hu
+  split at hu
+  · rename_i huk; injection hu with hu; subst hu; rw [huk]; exact hl t ht
+  · exact h u l' hu t ht
+
+theorem store_step_wf {st : Store} (h : st.WF) (op : Op) (eff : Name) (idx newId : Nat) :
+    (storeStep st op eff idx newId).WF := by
+  have hload := store_load_wf h eff
+  have hcons : ∀ t, t ∈ (⟨eff, newId⟩ : Tok) :: st.load eff → t.owner = eff := by
+    intro t ht
+    simp only [List.mem_cons] at ht
+    rcases ht with ht | ht
+    · rw [ht]
+    · exact hload t ht
+  unfold storeStep
+  split
+  · exact store_save_wf h _ _ (fun t ht => hload t (List.mem_filter.mp ht).1)
+  · exact store_save_wf h _ _ (fun t ht => hload t (List.mem_filter.mp ht).1)
+  · exact store_save_wf h _ _ hcons
+  · exact store_save_wf h _ _ hcons
+  · exact store_save_wf h _ _ hcons
+  · intro u l hu t ht
+    unfold Store.delete at hu
+    split at hu
+    · cases hu
+    · exact h u l hu t ht
+  · exact h
+  · exact h
+  · exact h
+  · exact store_save_wf h _ _ hload
+
+/-- **Store**: whatever accepted request is applied to whichever name, every stored token stays in
+its owner's row — no operation moves one user's token data into another user's profile. -/
+theorem c08_store_wf (st : Store) (h : st.WF) (ops : List StoreOp) : (storeRun st ops).WF := by
+  unfold storeRun
+  induction ops generalizing st with
+  | nil => exact h
+  | cons o rest ih => exact ih _ (store_step_wf h o.op o.eff o.idx o.newId)
+
+/-- **View**: in any store reachable from a well-formed one, the profile page rendered for an accepted
+view lists only tokens of the user the gate let through — the caller's own, or (administrator) those
+of the named target; never a third user's, whatever other rows exist. -/
+theorem c08_view_own_tokens (st : Store) (h : st.WF) (ops : List StoreOp) (actor : Name) (level : Nat)
+    (target : Name) (cfg : Cfg) (groups : Groups) (eff : Name)
+    (hp : authorize .viewProfile actor level target cfg groups = .pass eff) :
+    ∀ t, t ∈ shownTokens (storeRun st ops) eff →
+      t.owner = eff ∧ (eff = actor ∨ (eff = target ∧ IsAdmin cfg groups actor)) := by
+  intro t ht
+  refine ⟨store_load_wf (c08_store_wf st h ops) eff t ht, ?_⟩
+  by_cases hea : eff = actor
+  · exact Or.inl hea
+  · obtain ⟨ha, he⟩ := c08_admin_view_other actor level target cfg groups eff hp hea
+    exact Or.inr ⟨he, ha⟩
+
+/-- the judge's provenance effect: token data of `owner` stored in the row of `row` is acceptable
+only for `owner = row` (the store invariant), for every operation and every caller -/
+theorem c08_copied_spec (cfg : Cfg) (groups : Groups) (op : Op) (actor : Name) (level : Nat)
+    (target owner row : Name) (adm : Bool) :
+    (effectAllowed cfg groups op actor level target (.copied owner row) = true → owner = row) ∧
+    (effectAllowedB adm cfg groups op actor level target (.copied owner row) = true → owner = row) := by
+  constructor <;> intro h
+  · unfold effectAllowed at h; simpa using h
+  · unfold effectAllowedB at h; simpa using h
+
 /-! ### order-dependent authorisation: requests as sequences on one shared admin cache -/
 
 /-- **Effects relative to the verdict the handler got**: whatever `IsAdminUser(actor)` returned
@@ -812,6 +888,13 @@ theorem c08_sites :
     KM.Gen.c08Writers.all (fun w =>
       w.2.all (· != KM.AdminSite.Src.unknown) &&
       (!(w.2.any namesOther) || allOps.any (fun op => handlerName op == w.1))) = true := by
+  decide
+
+/-- **Storage statements**: Load/Save/DeleteUserProfile address `user_profile` rows by plain equality
+on `username` (both databases) — the exact-key lookup `Store.load/save/delete` assume. -/
+theorem c08_storage_sites :
+    KM.Gen.c08StorageStmts.all (fun s => s.2.2 == KM.AdminSite.KeyUse.exactKey) = true ∧
+    KM.Gen.c08StorageStmts.length = 6 := by
   decide
 
 /-! **Helpers**: the small functions the model transcribes literally still read as transcribed
